@@ -114,6 +114,20 @@ impl Dump for darling::ast::Generics<darling::ast::GenericParam> {
     }
 }
 
+/// generics whose type parameters were read by a derived FromTypeParam receiver
+pub fn dump_tp_generics<T: Dump>(g: &darling::ast::Generics<darling::ast::GenericParam<T>>) -> Value {
+    let params: Vec<Value> = g
+        .params
+        .iter()
+        .map(|p| match p {
+            darling::ast::GenericParam::Type(t) => json!({ "type": t.dump() }),
+            darling::ast::GenericParam::Lifetime(l) => json!({ "lifetime": canon_of(l) }),
+            darling::ast::GenericParam::Const(c) => json!({ "const": canon_of(c) }),
+        })
+        .collect();
+    json!({ "params": params, "where": g.where_clause.as_ref().map(canon_of).unwrap_or_default() })
+}
+
 impl<V: Dump, F: Dump> Dump for darling::ast::Data<V, F> {
     fn dump(&self) -> Value {
         match self {
